@@ -308,3 +308,22 @@ Definition effective_deadline (timeout : nat) (caller : option nat) : nat :=
   | None => timeout
   | Some c => Nat.min timeout c
   end.
+
+(** encodeLength / decodeLength of liteclient/client.go: the length prefix of the
+    query bytes in adnl.message.query and of the answer bytes in adnl.message.answer
+    (one byte below 254, else 254 and three little-endian bytes) *)
+Definition enc_len (n : N) : list N :=
+  if (n <? 254)%N then [n]
+  else [254; n mod 256; (n / 256) mod 256; (n / 65536) mod 256]%N.
+
+Definition dec_len (b : list N) : option (N * list N) :=
+  match b with
+  | [] => None
+  | h :: t =>
+      if (h =? 255)%N then None
+      else if (h <? 254)%N then Some (h, t)
+      else match t with
+           | b1 :: b2 :: b3 :: r => Some ((b1 + 256 * b2 + 65536 * b3)%N, r)
+           | _ => None
+           end
+  end.
